@@ -220,19 +220,17 @@ class XPathMap(XPathFunction):
             return []
 
     def keys(self, context: ta.ContextType = None) -> MapKeysView:
-        if self._map is None:
-            self._map = self._evaluate(context)
-        return MapKeysView(MappingProxyType(self._map))
+        # A map constructor token depends on the dynamic context: don't cache its value
+        _map = self._evaluate(context) if self._map is None else self._map
+        return MapKeysView(MappingProxyType(_map))
 
     def values(self, context: ta.ContextType = None) -> ValuesView[ta.ValueType]:
-        if self._map is None:
-            self._map = self._evaluate(context)
-        return self._map.values()
+        _map = self._evaluate(context) if self._map is None else self._map
+        return _map.values()
 
     def items(self, context: ta.ContextType = None) -> MapsItemsView:
-        if self._map is None:
-            self._map = self._evaluate(context)
-        return MapsItemsView(MappingProxyType(self._map))
+        _map = self._evaluate(context) if self._map is None else self._map
+        return MapsItemsView(MappingProxyType(_map))
 
     def match_function_test(self, function_test: ta.SequenceTypesType,
                             as_argument: bool = False) -> bool:
